@@ -420,7 +420,7 @@ Record PInv (w : world) (s : served) : Prop := {
 }.
 
 (* the step is not an update that turns a served passthrough TransportServer into a non-passthrough
-   one -- or the code removes stale pairs (cleanup = true, i.e. with fixes/F30.diff) *)
+   one -- or the code removes stale pairs (cleanup = true, i.e. with fixes/F33.diff) *)
 Definition downgrade_free (cl : bool) (e : estep) (s : served) : Prop :=
   cl = true \/
   match e with
@@ -706,7 +706,7 @@ Proof.
     discriminate.
 Qed.
 
-(* F30: with the current code (cleanup = false) an update of a passthrough TransportServer to a
+(* F33: with the current code (cleanup = false) an update of a passthrough TransportServer to a
    non-passthrough one leaves its host in the map (harness class witness-pt-update). *)
 Lemma passthrough_stale_refuted :
   exists evs h so,
